@@ -134,6 +134,41 @@ fn c05_fragments_vec() {
     kani::cover!(z0 > 1.0 && a[0] > 1.0, "depth other than one");
 }
 
+/// F3 on a *long* scanline (20 fragments; reciprocal depth z0*(k+1), z0 a power of two,
+/// arbitrary attribute start/step): fragment K (one harness per K) carries the stepped value
+/// divided by its own depth - checked by multiplying back (relative 1e-5), so an implementation
+/// that corrects perspective only every few pixels and interpolates linearly in between is told
+/// apart.  Positions and depths of *all* 20 fragments are checked exactly.
+fn fragments_long_at(kk: u32) {
+    const N: u32 = 20;
+    let (z0, _rz) = pow2_depth();
+    let (a0, da) = (fin(-1e3, 1e3), fin(-10.0, 10.0));
+    let mut sl: Scanline<f32> = Scanline {
+        y: 3,
+        xs: 2..2 + N as usize,
+        vs: VIter { val: (pt3(2.5, 3.5, z0), a0), step: (vec3::<f32, Screen>(1.0, 0.0, z0), da), n: Some(N) },
+    };
+    let mut it = sl.fragments();
+    let (mut v, mut z, mut x) = (a0, z0, 2.5f32);
+    let mut k = 0;
+    while k < N {
+        let f = it.next().unwrap();
+        assert!(f.pos.x() == x && f.pos.y() == 3.5 && f.pos.z() == z);
+        if k == kk {
+            let back = f.var * z;
+            assert!((back - v).abs() <= 1e-5 * v.abs() + 1e-30);
+        }
+        v += da;
+        z += z0;
+        x += 1.0;
+        k += 1;
+    }
+    assert!(it.next().is_none());
+    kani::cover!(da > 1.0 && a0 < -1.0, "varying attribute");
+}
+#[kani::proof] #[kani::unwind(23)] fn c05_fragments_long_k8() { fragments_long_at(8); }
+#[kani::proof] #[kani::unwind(23)] fn c05_fragments_long_k19() { fragments_long_at(19); }
+
 /// depth through scan(): reciprocal depth is an affine function of the screen
 /// position (z = 1 + (p*x + q*y)/8 at the lattice corners); every fragment
 /// carries the plane's value at its own pixel centre (pre-stepped in x and y).
